@@ -142,6 +142,12 @@ where
                         Some(g2) if g2.mean == g.mean && g2.variance == g.variance => {}
                         _ => return inconsistent(401),
                     }
+                    // an iterator without an exact size hint
+                    let g3 = guarded(|| Gaussian::<T>::approximating(data.iter().cloned().filter(|_| true)));
+                    match g3 {
+                        Some(g3) if g3.mean == g.mean && g3.variance == g.variance => {}
+                        _ => return inconsistent(402),
+                    }
                     ok(l(vec![g.mean.enc(), g.variance.enc()]))
                 }
                 None => panicked(),
@@ -220,6 +226,33 @@ where
             let mut source = Counting::new(src.clone());
             let r = guarded(|| g.draw(&mut source, k, dim(ns), dim(nf)));
             let taken = source.taken;
+            // the mean / covariance tensors' OWN dimension names are not observable: every
+            // renaming, including collisions with the draw's `samples` / `features` names, must
+            // give the same outcome (same numbers, same shape, same consumption, same panic)
+            for (mn, c0, c1) in [
+                (nf, 8, 9),
+                (ns, 8, 9),
+                (7, ns, nf),
+                (7, nf, ns),
+                (nf, nf, ns),
+                (ns, ns, nf),
+                (nf, 8, nf),
+                (ns, ns, 9),
+            ] {
+                if c0 == c1 {
+                    continue;
+                }
+                let mean_r = Tensor::from([(dim(mn), mean_flat.len())], mean_flat.clone());
+                let cov_r = Tensor::from([(dim(c0), cr), (dim(c1), cc)], cov_flat.clone());
+                let Ok(g2) = MultivariateGaussianTensor::<T>::new(mean_r, cov_r) else {
+                    return inconsistent(330);
+                };
+                let mut source2 = Counting::new(src.clone());
+                let r2 = guarded(|| g2.draw(&mut source2, k, dim(ns), dim(nf)));
+                if r2 != r || source2.taken != taken {
+                    return inconsistent(331);
+                }
+            }
             match r {
                 None => ok(panicked()),
                 Some(r) => {
